@@ -147,7 +147,7 @@ fn main() {
             .unwrap();
         }
     }
-    // update mask accessors
+    // update mask accessors, grouped per (expansion, object kind)
     let mut um = String::new();
     let re_impl = Regex::new(r"(?m)^impl (Update\w+) \{").unwrap();
     let re_set = Regex::new(r"(?m)^    pub fn set_(\w+)\(&mut self, ([^)]*)\) \{").unwrap();
@@ -162,14 +162,18 @@ fn main() {
             }
             let end = impls.get(i + 1).map(|x| x.0).unwrap_or(src.len());
             let block = &src[*start..end];
-            let builder_block_has = |name: &str| {
-                // the builder of the same kind
+            let builder_block: &str = {
                 let b = format!("impl {}Builder {{", ty);
-                src.find(&b).map(|s| {
-                    let e = src[s + 1..].find("\nimpl ").map(|x| s + 1 + x).unwrap_or(src.len());
-                    src[s..e].contains(&format!("pub fn set_{}(mut self,", name))
-                }).unwrap_or(false)
+                match src.find(&b) {
+                    Some(s0) => {
+                        let e = src[s0 + 1..].find("\nimpl ").map(|x| s0 + 1 + x).unwrap_or(src.len());
+                        &src[s0..e]
+                    }
+                    None => "",
+                }
             };
+            let mut accs = Vec::new();
+            let mut custom = Vec::new();
             for c in re_set.captures_iter(block) {
                 let name = &c[1];
                 let args = c[2].trim();
@@ -183,15 +187,18 @@ fn main() {
                 };
                 let getter = block.contains(&format!("pub fn {}(&self) ->", name));
                 if sig == "custom" || !getter {
-                    writeln!(um, "    UmAccessor {{ exp: \"{}\", kind: \"{}\", name: \"{}\", sig: \"custom\", run: None }},", exp, ty, name).unwrap();
+                    custom.push(format!("\"{}\"", name));
                 } else {
-                    writeln!(um, "    um_accessor!({}, {}, {}Builder, \"{}\", set_{}, {}, {}, {}),", exp, ty, ty, name, name, name, sig, builder_block_has(name)).unwrap();
+                    let hb = builder_block.contains(&format!("pub fn set_{}(mut self,", name));
+                    accs.push(format!("({}, set_{}, {}, {})", name, name, sig, hb));
                 }
             }
+            let variant = ty.trim_start_matches("Update");
+            writeln!(um, "    um_kind!({}, {}, {}Builder, {}, [{}], custom: [{}]),", exp, ty, ty, variant, accs.join(", "), custom.join(", ")).unwrap();
         }
     }
     let out = format!(
-        "pub fn enum_adapters() -> Vec<EnumAdapter> {{\n    vec![\n{}    ]\n}}\n\npub fn flag_adapters() -> Vec<FlagAdapter> {{\n    vec![\n{}    ]\n}}\n\npub fn um_accessors() -> Vec<UmAccessor> {{\n    vec![\n{}    ]\n}}\n",
+        "pub fn enum_adapters() -> Vec<EnumAdapter> {{\n    vec![\n{}    ]\n}}\n\npub fn flag_adapters() -> Vec<FlagAdapter> {{\n    vec![\n{}    ]\n}}\n\npub fn um_kinds() -> Vec<UmKind> {{\n    vec![\n{}    ]\n}}\n",
         enums, flags, um
     );
     std::fs::write(PathBuf::from(std::env::var("OUT_DIR").unwrap()).join("typed_tables.rs"), out).unwrap();
